@@ -47,7 +47,9 @@ impl Int {
     /// Otherwise nothing will be returned (undefined).
     pub fn as_negative(&self) -> Option<BigNum> {
         if !self.is_positive() {
-            Some(((-self.0) as u64).into())
+            <u64 as std::convert::TryFrom<i128>>::try_from(-self.0)
+                .ok()
+                .map(|x| x.into())
         } else {
             None
         }
